@@ -157,6 +157,7 @@ var propSpecs = map[string]*propSpec{
 		units: []unitStream{
 			{"clause", 30000, func(g *gen, id string) *UnitCase { return g.clauseUnit(id) }},
 			{"semver", 20000, func(g *gen, id string) *UnitCase { return g.semverUnit(id) }},
+			{"accessor", 20000, func(g *gen, id string) *UnitCase { return g.accessorUnit(id) }},
 		},
 	},
 	"C05": {
